@@ -84,7 +84,7 @@ class SimScript:
             n = min(n, room)
             reps, el = [], 0.0
             for k in range(n):
-                el += r.choice([0.25, 1.0, 1.0, 3.0, 7.5])
+                el += r.choice([0.25, 1.0, 1.0, 3.0, 7.5]) * p.get("epoch_scale", 1.0)
                 reps.append([r.randint(0, 40) / 4.0, start_epoch + k + 1, el, r.randint(0, 8) / 4.0])
             if "p_nonmono" in p and n >= 2 and r.random() < p["p_nonmono"]:
                 # elapsed times that do not increase with the report number (the evaluation of an earlier epoch
@@ -481,6 +481,12 @@ def gen_sim_case(rng):
     profile = dict(p_fail=rng.choice([0.05, 0.15, 0.3]), p_stop_ext=rng.choice([0.0, 0.05]), p_early=0.1,
                    outside=rng.choice([0.0, 1.0]), p_pause=0.15, p_stop=0.15, p_none=0.02, p_resume=0.4, p_resume_bad=0.0,
                    p_ckpt=0.1)
+    if sched in ("scripted", "hyperband_promotion") and n_workers >= 2 and rng.random() < 0.5:
+        # a stop delay that is long compared with the time per epoch: while the blocking stop / pause of one trial advances
+        # the clock, the jobs of the other trials report their remaining results and complete; a PAUSE for an earlier
+        # result of such a trial, followed by its resume in the same iteration, must not let results of the paused run through
+        delays = dict(delays, delay_stop=rng.choice([6.0, 20.0]))
+        profile.update(epoch_scale=rng.choice([0.05, 0.2]), p_pause=0.35, p_stop=0.2, p_resume=0.8, p_fail=0.05)
     if sched in ("scripted", "fifo_random") and rng.random() < 0.6:
         profile["p_nonmono"] = rng.choice([0.3, 0.6])   # non-monotone elapsed times within a job
     if sched in ("sync_hyperband", "dehb"):   # see tuner_real.FEW_FAILURES: one failed job per run at most
